@@ -1,0 +1,8 @@
+//go:build verif
+
+// Contracts for the syslog accounter, read by /verif (tqv). Comment-only.
+package syslog
+
+//@ func (a Accounter) Handle(response tq.Response, request tq.Request)
+//@   implements tq.Handler.Handle
+//@   requires a.loggerProvider != nil
